@@ -90,19 +90,25 @@ structure CS (P : Parser) where
   now : Nat := 0
   /-- ghost log: (exchange, provenance) of every head handed to a caller -/
   heads : List (Nat × List Tag) := []
+  /-- ghost: the connection was handed out at a moment when its queue or tail was not empty -/
+  dirtyAcq : Bool := false
 
 structure CCfg where
   fix : Bool
   forceClose : Bool := false
   keepalive : Nat := 120
 
+/-- `_get` on a pooled connection, or first use of a new one -/
+def acqResult (g : CCfg) (c : Conn P) (k : Key) (j now : Nat) : Conn P × Bool :=
+  if c.pooled.isSome then c.tryAcquire k j now g.keepalive g.fix
+  else if c.owner.isNone && c.parser.isNone && c.connected && !(g.fix && c.shouldCloseProp)
+    then ({ c with pooled := none, owner := some j }, true) else (c, false)
+
 def cAcquire (g : CCfg) (s : CS P) (k : Key) (j : Nat) (skip : Bool) : CS P :=
-  let c := s.c
-  let r : Conn P × Bool :=
-    if c.pooled.isSome then c.tryAcquire k j s.now g.keepalive g.fix
-    else if c.owner.isNone && c.parser.isNone && c.connected && !(g.fix && c.shouldCloseProp)
-      then ({ c with owner := some j }, true) else (c, false)
-  if r.2 then { s with c := (r.1.setResponseParams s.now g.forceClose skip).1 } else { s with c := r.1 }
+  if (acqResult g s.c k j s.now).2 then
+    { s with c := ((acqResult g s.c k j s.now).1.setResponseParams s.now g.forceClose skip).1,
+             dirtyAcq := s.dirtyAcq || !s.c.buffer.isEmpty || !s.c.tail.isEmpty }
+  else { s with c := (acqResult g s.c k j s.now).1 }
 
 def cstep (g : CCfg) (s : CS P) : COp → CS P
   | .acquire k j skip => cAcquire g s k j skip
@@ -230,5 +236,181 @@ theorem frame_release (c : Conn P) (now : Nat) (fc ex : Bool) :
       rcases this.owner with h | h <;> simpa using h
     exact ⟨⟨this.ptags, this.tailTags, this.buffer, this.tail, this.stale, Or.inr ho⟩, ho⟩
   · exact ⟨⟨rfl, rfl, rfl, rfl, rfl, Or.inr rfl⟩, rfl⟩
+
+
+/-! ### the head invariant -/
+
+/-- while exchange `j` holds the connection, everything the current parser consumed, the tail
+and every queued message stem from chunks that arrived while `j` held it -/
+def OwnInv (c : Conn P) : Prop :=
+  ∀ j, c.owner = some j →
+    (∀ t ∈ c.ptags, t = some j) ∧ (∀ t ∈ c.tailTags, t = some j) ∧ (∀ q ∈ c.buffer, ∀ t ∈ q.prov, t = some j)
+
+theorem OwnInv.frame {c c' : Conn P} (h : OwnInv c) (f : Frame c c') : OwnInv c' := by
+  intro j hj
+  rcases f.owner with ho | ho
+  · rw [ho] at hj
+    have := h j hj
+    rw [f.ptags, f.tailTags, f.buffer]
+    exact this
+  · rw [ho] at hj; cases hj
+
+theorem pushMsgs_spec (ms : List (Msg × Option Nat)) (c : Conn P) :
+    (c.pushMsgs ms).ptags = c.ptags ∧ (c.pushMsgs ms).tailTags = c.tailTags ∧ (c.pushMsgs ms).owner = c.owner ∧
+    (c.pushMsgs ms).tail = c.tail ∧
+    (∀ q ∈ (c.pushMsgs ms).buffer, q ∈ c.buffer ∨ q.prov = c.ptags) := by
+  induction ms generalizing c with
+  | nil => unfold Conn.pushMsgs; exact ⟨rfl, rfl, rfl, rfl, fun q hq => Or.inl hq⟩
+  | cons a rest ih =>
+    rcases a with ⟨m, p⟩
+    unfold Conn.pushMsgs
+    dsimp only
+    split
+    all_goals
+      refine ⟨(ih _).1, (ih _).2.1, (ih _).2.2.1, (ih _).2.2.2.1, ?_⟩
+      intro q hq
+      rcases (ih _).2.2.2.2 q hq with h | h
+      · simp only [List.mem_append, List.mem_singleton] at h
+        rcases h with h | h
+        · exact Or.inl h
+        · right; rw [h]
+      · right; exact h
+
+theorem ownInv_dataReceived (c : Conn P) (now : Nat) (fc : Bool) (data : Bytes) (h : OwnInv c) :
+    OwnInv (c.dataReceived now fc data [c.owner]).1 := by
+  unfold Conn.dataReceived
+  have htail : OwnInv ({ c with tail := c.tail ++ data, tailTags := c.tailTags ++ [c.owner],
+                                stale := c.stale || (c.owner.isNone && !data.isEmpty) } : Conn P) := by
+    intro j hj
+    have hj' : c.owner = some j := hj
+    obtain ⟨h1, h2, h3⟩ := h j hj'
+    refine ⟨h1, ?_, h3⟩
+    intro t ht
+    simp only [List.mem_append, List.mem_singleton] at ht
+    rcases ht with ht | ht
+    · exact h2 t ht
+    · rw [ht]; exact hj'
+  split
+  · exact htail
+  · next s hs =>
+    split
+    · exact htail
+    · -- parser branch
+      have h0 : OwnInv ({ c with parser := some (P.feed s data).st, ptags := c.ptags ++ [c.owner] } : Conn P) := by
+        intro j hj
+        have hj' : c.owner = some j := hj
+        obtain ⟨h1, h2, h3⟩ := h j hj'
+        refine ⟨?_, h2, h3⟩
+        intro t ht
+        simp only [List.mem_append, List.mem_singleton] at ht
+        rcases ht with ht | ht
+        · exact h1 t ht
+        · rw [ht]; exact hj'
+      generalize hc0 : ({ c with parser := some (P.feed s data).st, ptags := c.ptags ++ [c.owner] } : Conn P) = c0 at h0
+      have hf : Frame c0 (c0.applyEvs now fc (P.feed s data).evs).1 :=
+        frame_applyEvsCore _ (fun c => (frame_release c now fc false).1) _ _ _ _
+      have h1 := h0.frame hf
+      rcases hx : c0.applyEvs now fc (P.feed s data).evs with ⟨c1, rel, msgs⟩
+      rw [hx] at h1
+      simp only [hc0, hx]
+      split
+      · -- error
+        have h2 : OwnInv (c1.setException .http) := h1.frame (frame_setException _ _)
+        split
+        · have hf3 := frame_lostCore ({ c1.setException .http with connected := false } : Conn P) false
+          have h2' : OwnInv ({ c1.setException .http with connected := false } : Conn P) := h2
+          exact h2'.frame hf3
+        · exact h2
+      · -- pushMsgs
+        have hc2 : OwnInv ({ c1 with upgraded := (P.feed s data).upgraded } : Conn P) := h1
+        have hc2o : ({ c1 with upgraded := (P.feed s data).upgraded } : Conn P).owner = c1.owner := rfl
+        generalize ({ c1 with upgraded := (P.feed s data).upgraded } : Conn P) = c2 at hc2 hc2o
+        have hp := pushMsgs_spec msgs c2
+        have h3 : OwnInv (c2.pushMsgs msgs) := by
+          intro j hj
+          rw [hp.2.2.1] at hj
+          obtain ⟨a1, a2, a3⟩ := hc2 j hj
+          refine ⟨by rw [hp.1]; exact a1, by rw [hp.2.1]; exact a2, ?_⟩
+          intro q hq t ht
+          rcases hp.2.2.2.2 q hq with hq' | hq'
+          · exact a3 q hq' t ht
+          · rw [hq'] at ht; exact a1 t ht
+        split
+        · intro j hj
+          have hj' : (c2.pushMsgs msgs).owner = some j := hj
+          obtain ⟨a1, a2, a3⟩ := h3 j hj'
+          refine ⟨a1, ?_, a3⟩
+          intro t ht
+          simp only [List.mem_append, List.mem_singleton] at ht
+          rcases ht with ht | ht
+          · exact a2 t ht
+          · -- the tag of this chunk is the holder when it arrived; the holder has not changed since
+            rw [ht]
+            have e1 : c1.owner = some j := by rw [← hc2o, ← hp.2.2.1]; exact hj'
+            have e0 : c0.owner = c.owner := by rw [← hc0]
+            rcases hf.owner with ho | ho
+            · rw [hx] at ho
+              have ho' : c1.owner = c0.owner := ho
+              rw [← e0, ← ho']; exact e1
+            · rw [hx] at ho
+              have ho' : c1.owner = none := ho
+              rw [ho'] at e1; cases e1
+        · exact h3
+
+
+theorem frame_onEof (c : Conn P) (now : Nat) (fc : Bool) (pay : Option Nat) : Frame c (c.onEof now fc pay).1 := by
+  unfold Conn.onEof
+  cases pay with
+  | none =>
+    cases hU : c.upgraded <;> simp
+    · exact (frame_release _ _ _ _).1
+    · exact Frame.rfl' _
+  | some p =>
+    cases hE : c.payEof p <;> cases hU : c.upgraded <;> simp [hE]
+    all_goals first
+      | exact Frame.rfl' _
+      | exact (frame_release _ _ _ _).1
+      | exact frame_modPay _ _ _
+
+theorem frame_tryAcquire_fail (c : Conn P) (k : Key) (j now ka : Nat) (fix : Bool)
+    (h : (c.tryAcquire k j now ka fix).2 = false) : Frame c (c.tryAcquire k j now ka fix).1 := by
+  unfold Conn.tryAcquire at h ⊢
+  split
+  · next hk => rw [if_pos hk] at h; simp at h
+  · split
+    · have := frame_protoClose ({ c with pooled := none } : Conn P)
+      exact ⟨this.ptags, this.tailTags, this.buffer, this.tail, this.stale, this.owner⟩
+    · exact Frame.rfl' _
+
+theorem tryAcquire_ok_eq (c : Conn P) (k : Key) (j now ka : Nat) (fix : Bool)
+    (h : (c.tryAcquire k j now ka fix).2 = true) :
+    (c.tryAcquire k j now ka fix).1 = { c with pooled := none, owner := some j } := by
+  unfold Conn.tryAcquire at h ⊢
+  split
+  · rfl
+  · next hn => rw [if_neg hn] at h; split at h <;> simp at h
+
+theorem acqResult_fail (g : CCfg) (c : Conn P) (k : Key) (j now : Nat)
+    (h : (acqResult g c k j now).2 = false) : Frame c (acqResult g c k j now).1 := by
+  unfold acqResult at h ⊢
+  split
+  · next hp => rw [if_pos hp] at h; exact frame_tryAcquire_fail _ _ _ _ _ _ h
+  · next hp =>
+    rw [if_neg hp] at h
+    split
+    · next hf => rw [if_pos hf] at h; simp at h
+    · exact Frame.rfl' _
+
+theorem acqResult_ok (g : CCfg) (c : Conn P) (k : Key) (j now : Nat)
+    (h : (acqResult g c k j now).2 = true) :
+    (acqResult g c k j now).1 = { c with pooled := none, owner := some j } := by
+  unfold acqResult at h ⊢
+  split
+  · next hp => rw [if_pos hp] at h; exact tryAcquire_ok_eq _ _ _ _ _ _ h
+  · next hp =>
+    rw [if_neg hp] at h
+    split
+    · rfl
+    · next hf => rw [if_neg hf] at h; simp at h
 
 end Aio.C06
